@@ -891,13 +891,21 @@ class FnTranslator:
         return False
 
     def join_vars(self, env, envs, names, node):
-        """variables to thread through a join: assigned in a branch and bound in every incoming env"""
+        """variables to thread through a join: assigned in a branch and bound in every incoming env.
+        A variable that is `None` on one path and a value of shape s on the other becomes Optional."""
         out = []
         for nm in names:
             es = [e.d.get(nm) for e in envs]
             if all(x is not None for x in es):
                 shs = {x[1] for x in es}
-                if len(shs) != 1:
+                if len(shs) == 2 and U in shs:
+                    other = [x for x in shs if x != U][0]
+                    if other[0] == "O":
+                        self.fail(node, f"`{nm}`: None / Optional join")
+                    for e in envs:
+                        ln, sh = e.d[nm]
+                        e.d[nm] = ("none" if sh == U else f"(some {ln})", O(other))
+                elif len(shs) != 1:
                     self.fail(node, f"`{nm}` has different shapes on the joining paths")
                 out.append(nm)
         return out
@@ -1277,6 +1285,11 @@ class FnTranslator:
                 pre += p
                 vals.append(v)
             shs = {v[2] for v in vals}
+            opts = {x for x in shs if x[0] == "O"}
+            if len(opts) == 1 and all(x == list(opts)[0] or x == list(opts)[0][1] for x in shs):
+                o = list(opts)[0]           # values and Optional values of the same shape: a list of Optionals
+                elems = [v[1] if v[2] == o else f"(some {v[1]})" for v in vals]
+                return pre, ("pure", "[" + ", ".join(elems) + "]", L(o))
             if len(shs) > 1:
                 self.fail(node, "list literal with elements of different shapes")
             sh = shs.pop() if shs else N
@@ -1425,6 +1438,9 @@ class FnTranslator:
                 self.fail(node, "chained comparison whose later operand has effects")
             pre += p
             first = False
+            if isinstance(op, (ast.Is, ast.IsNot)) and left[2][0] == "O" and isinstance(rhs, ast.Constant) \
+                    and rhs.value is None and len(node.ops) == 1:
+                return pre, ("pure", f"({left[1]}).isNone" if isinstance(op, ast.Is) else f"({left[1]}).isSome", B)
             if isinstance(op, (ast.Is, ast.IsNot)):
                 # `x is None` / `x is not None` for a value whose shape says it is a number / list / tuple:
                 # the entry assumption "parameters have their declared shapes" decides the test
